@@ -20,7 +20,9 @@ ensure_batching_not_mapped_attr()
 def _handle_scalar_broadcasting(ndim: int, x: Any, dim: Any) -> Any:
     if dim is NOT_MAPPED or ndim == np.ndim(x):
         return x
-    return lax.expand_dims(x, tuple(range(np.ndim(x), ndim)))
+    # numpy broadcasting aligns the trailing axes: the missing axes of a
+    # lower-rank operand go right behind its (leading) batch axis.
+    return lax.expand_dims(x, tuple(range(1, 1 + ndim - np.ndim(x))))
 
 
 def broadcast_batcher_compat(
